@@ -482,6 +482,14 @@ class World:
 
     # ---- abstract state (coverage only; never decides pass/fail) ---------------------------------
     def abstract_state(self, prec):
+        # coverage accounting only: private attributes may be renamed or restructured by a correct
+        # refactor, so nothing in here may raise or decide anything
+        try:
+            return self._abstract_state(prec)
+        except Exception:
+            return H("opaque", len(prec.model))
+
+    def _abstract_state(self, prec):
         p = prec.obj
         segs = [self.segs[s] for s in prec.model]
         first_ok = last_ok = True
